@@ -153,6 +153,10 @@ long UF(ui_pow_ui)(unsigned long, unsigned long);
 static inline void mpz_ui_pow_ui(mpz_ptr r, unsigned long b, unsigned long e) { long x = UF(ui_pow_ui)(b, e); __CPROVER_assume(x >= 0); r->v = x; }
 static inline void mpz_pow_ui(mpz_ptr r, mpz_srcptr a, unsigned long e) { r->v = UF(pow_ui)(a->v, e); }
 static inline void mpz_sqrt(mpz_ptr r, mpz_srcptr a) { r->v = UF(sqrt)(a->v); }
+long UF(mul_2exp)(long, unsigned long);
+_Bool UF(congruent_ui)(long, unsigned long, unsigned long);
+static inline void mpz_mul_2exp(mpz_ptr r, mpz_srcptr a, unsigned long n) { r->v = UF(mul_2exp)(a->v, n); }
+static inline int mpz_congruent_ui_p(mpz_srcptr a, unsigned long c, unsigned long d) { return UF(congruent_ui)(a->v, c, d) ? 1 : 0; }
 static inline void mpz_swap(mpz_ptr a, mpz_ptr b) { long t = a->v; a->v = b->v; b->v = t; }
 
 #ifdef VEC_DECL
